@@ -6,6 +6,7 @@ import (
 	"go/ast"
 	"go/printer"
 	"go/token"
+	"go/types"
 	"sort"
 
 	"golang.org/x/tools/go/ssa"
@@ -45,8 +46,106 @@ func (x *Exec) loopsOf(fn *ssa.Function) *loopAnalysis {
 		return la
 	}
 	la := analyseLoops(x.w.prog.Fset, fn)
+	if fn == x.entry && useBindings {
+		// the contract was written against the loop keys recorded at lock
+		// time; a loop whose text changed (a renamed variable) keeps its key
+		// as long as the function still has the same loops in the same order
+		if b, ok := lockedBindings[x.entryKey]; ok && la.err == "" && len(b.Loops) == len(la.list) {
+			for i, li := range la.list {
+				if li.key != b.Loops[i] {
+					x.notes["loop "+li.key+" of "+x.entryKey+" is matched by position with the contract's "+b.Loops[i]] = true
+					li.key = b.Loops[i]
+				}
+			}
+		}
+	}
 	x.loops[fn] = la
 	return la
+}
+
+// fnBinding records, per function under contract, the names the contract may
+// use: the function's local variables in declaration order and its loop keys
+// in source order. It is written at lock time; at check time a local that has
+// been renamed and a loop whose text changed are matched by position.
+type fnBinding struct {
+	Locals []string `json:"locals"`
+	Loops  []string `json:"loops"`
+}
+
+var lockedBindings = map[string]fnBinding{}
+var useBindings = false
+
+// localObjects lists the source-level variables of fn (declared inside its
+// syntax) in declaration order.
+func localObjects(fn *ssa.Function) []types.Object {
+	syn := fn.Syntax()
+	if syn == nil {
+		return nil
+	}
+	seen := map[types.Object]bool{}
+	var objs []types.Object
+	for _, b := range fn.Blocks {
+		for _, in := range b.Instrs {
+			d, ok := in.(*ssa.DebugRef)
+			if !ok {
+				continue
+			}
+			id, ok := d.Expr.(*ast.Ident)
+			if !ok || id.Name == "_" {
+				continue
+			}
+			o := d.Object()
+			if o == nil || seen[o] {
+				continue
+			}
+			if _, isVar := o.(*types.Var); !isVar {
+				continue
+			}
+			if o.Pos() < syn.Pos() || o.Pos() > syn.End() {
+				continue
+			}
+			seen[o] = true
+			objs = append(objs, o)
+		}
+	}
+	sort.Slice(objs, func(i, j int) bool { return objs[i].Pos() < objs[j].Pos() })
+	return objs
+}
+
+func (x *Exec) currentBinding() fnBinding {
+	var b fnBinding
+	for _, o := range localObjects(x.entry) {
+		b.Locals = append(b.Locals, o.Name())
+	}
+	la := analyseLoops(x.w.prog.Fset, x.entry)
+	for _, li := range la.list {
+		b.Loops = append(b.Loops, li.key)
+	}
+	return b
+}
+
+// applyLocalBindings fills localAlias from the locked binding of the entry function.
+func (x *Exec) applyLocalBindings() {
+	if !useBindings {
+		return
+	}
+	b, ok := lockedBindings[x.entryKey]
+	if !ok {
+		return
+	}
+	objs := localObjects(x.entry)
+	if len(objs) != len(b.Locals) {
+		return
+	}
+	for i, o := range objs {
+		if o.Name() != b.Locals[i] {
+			if x.localAlias == nil {
+				x.localAlias = map[types.Object]string{}
+			}
+			x.localAlias[o] = b.Locals[i]
+			x.notes["local "+o.Name()+" of "+x.entryKey+" is matched by position with the contract's "+b.Locals[i]] = true
+		}
+	}
 }
 
 func analyseLoops(fset *token.FileSet, fn *ssa.Function) *loopAnalysis {
